@@ -634,6 +634,11 @@ func genFacts(repo string) []byte {
 	b.WriteString(genCondActions(srv, "Server", "streamDB", "streamDBConds") + "\n")
 	b.WriteString(genCondActions(srv, "Server", "streamLTX", "streamLTXConds") + "\n")
 	b.WriteString(genCondActions(files["store.go"], "Store", "processLTXStreamFrame", "processFrameConds") + "\n")
+	px := parseFile(filepath.Join(repo, "http/proxy_server.go"))
+	b.WriteString(genCondActions(px, "ProxyServer", "serveHTTP", "proxyServeHTTPConds") + "\n")
+	b.WriteString(genCondActions(px, "ProxyServer", "serveRead", "proxyServeReadConds") + "\n")
+	b.WriteString(genCondActions(px, "ProxyServer", "serveNonRead", "proxyServeNonReadConds") + "\n")
+	b.WriteString(genCondActions(px, "ProxyServer", "proxyToTarget", "proxyToTargetConds") + "\n")
 	b.WriteString("end LiteFSVerif.Gen.Facts\n")
 	return []byte(b.String())
 }
@@ -824,6 +829,8 @@ func genCondActions(f *ast.File, recv, fn, lean string) string {
 				}
 				txt := src(x)
 				switch {
+				case txt == "return":
+					kind = "return"
 				case strings.Contains(txt, "streamLTXSnapshot"):
 					kind = "snapshot"
 				case txt == "return nil":
@@ -834,6 +841,18 @@ func genCondActions(f *ast.File, recv, fn, lean string) string {
 			case *ast.CallExpr:
 				if strings.Contains(src(x.Fun), "io.Discard") || (len(x.Args) > 0 && src(x.Args[0]) == "io.Discard") {
 					kind = "skip"
+				}
+				if kind == "other" {
+					switch fn := src(x.Fun); {
+					case fn == "s.proxyToTarget":
+						kind = "proxyToTarget " + src(x.Args[len(x.Args)-1])
+					case fn == "s.serveGetHealth" || fn == "s.serveRead" || fn == "s.serveNonRead":
+						kind = strings.TrimPrefix(fn, "s.")
+					case fn == "http.Error" && len(x.Args) == 3:
+						kind = "http.Error " + src(x.Args[2])
+					case fn == "http.SetCookie":
+						kind = "set-cookie"
+					}
 				}
 			}
 			return true
@@ -879,6 +898,14 @@ func genCondActions(f *ast.File, recv, fn, lean string) string {
 				walkIf(x)
 			case *ast.ForStmt:
 				walk(x.Body.List)
+			case *ast.LabeledStmt:
+				walk([]ast.Stmt{x.Stmt})
+			case *ast.SelectStmt:
+				for _, cc := range x.Body.List {
+					if c, ok := cc.(*ast.CommClause); ok && c.Comm != nil {
+						out = append(out, fmt.Sprintf("(%q, %q)", "select "+src(c.Comm), classify(&ast.BlockStmt{List: c.Body})))
+					}
+				}
 			case *ast.BlockStmt:
 				walk(x.List)
 			case *ast.AssignStmt:
